@@ -223,20 +223,25 @@ theorem solePath_eval {h : Heap} : ∀ (pp : Path) (a par : Addr), SolePath h a 
 
 /-- THE WRITE LEMMA: if the cell `par` at the end of the sole path `pp` from `root` is overwritten
     and abstracts to `newN` afterwards, the root abstracts to `setAt d pp newN` -/
-theorem abs_write_at {h : Heap} (hm : h.MapsOk) {par : Addr} {cell' : Cell} {newN : Node} :
-    ∀ (pp : Path) (F : Nat) (root : Addr) (d : Node), Plain pp → absH F h root = some d →
+theorem abs_write_at {h : Heap} {par : Addr} {cell' : Cell} {newN : Node} :
+    ∀ (pp : Path) (F : Nat) (root : Addr) (d : Node),
+      (∀ a kvs, Reach h root a → h.get? a = some (.cont kvs) → AMap.Sorted kvs) →
+      Plain pp → absH F h root = some d →
       SolePath h root pp par → absH (F - pp.length) (h.write par cell') par = some newN →
       absH F (h.write par cell') root = some (Ytk.Patch.setAt d pp newN)
-  | [], F, root, d, _, _, hs, hnew => by
+  | [], F, root, d, _, _, _, hs, hnew => by
     simp only [SolePath] at hs; subst hs
     simpa [Ytk.Patch.setAt] using hnew
-  | t :: ts, F, root, d, hpl, hd, hs, hnew => by
+  | t :: ts, F, root, d, hm, hpl, hd, hs, hnew => by
     cases F with
     | zero => simp [absH] at hd
     | succ F' =>
       have ht := hpl t (List.mem_cons_self ..)
       have hts : Plain ts := fun x hx => hpl x (List.mem_cons_of_mem _ hx)
       obtain ⟨hne, c, hstep, hrest, hoth⟩ := hs
+      have hmc : ∀ a kvs, Reach h c a → h.get? a = some (.cont kvs) → AMap.Sorted kvs := by
+        obtain ⟨cell0, hg0, hk0⟩ := stepH_kid hstep
+        exact fun a kvs hr hg => hm a kvs ((Reach.child hg0 hk0).trans hr) hg
       obtain ⟨F'', cell, hF, hcell, hmm⟩ := absH_inv hd
       cases Nat.succ.inj hF
       have hnew' : absH (F' - ts.length) (h.write par cell') par = some newN := by
@@ -252,13 +257,13 @@ theorem abs_write_at {h : Heap} (hm : h.MapsOk) {par : Addr} {cell' : Cell} {new
         obtain ⟨m, hmk, rfl⟩ := hmm
         simp only at hstep hoth
         obtain ⟨dc, hdc, hgetm⟩ := optMapKvs_get?_some hmk hstep
-        have ih := abs_write_at hm ts F' c dc hts hdc hrest hnew'
+        have ih := abs_write_at ts F' c dc hmc hts hdc hrest hnew'
         have hsetAt : Ytk.Patch.setAt (.cont m) (t :: ts) newN =
             .cont (AMap.insert m t (Ytk.Patch.setAt dc ts newN)) := by
           simp only [Ytk.Patch.setAt, child_of_noSuffix m ht, hgetm, add_of_noSuffix m _ ht]
         rw [hsetAt, absH, hget]
         simp only
-        rw [optMapKvs_update (hm root kvs hcell) hmk hstep ih
+        rw [optMapKvs_update (hm root kvs (.refl _) hcell) hmk hstep ih
           (fun p hp hne' => absH_write_frame cell' (hoth p hp hne') F')]
       | list xs =>
         obtain ⟨ns, hmk, rfl⟩ := hmm
@@ -270,7 +275,7 @@ theorem abs_write_at {h : Heap} (hm : h.MapsOk) {par : Addr} {cell' : Cell} {new
           split at hstep
           · rename_i hcond
             obtain ⟨dc, hdc, hgetn⟩ := optMapM_getElem? hmk hstep
-            have ih := abs_write_at hm ts F' c dc hts hdc hrest hnew'
+            have ih := abs_write_at ts F' c dc hmc hts hdc hrest hnew'
             have hi : ((i.toNat : Nat) : Int) = i := Int.toNat_of_nonneg hcond.1
             have hsetAt : Ytk.Patch.setAt (.list ns) (t :: ts) newN =
                 .list (ns.set i.toNat (Ytk.Patch.setAt dc ts newN)) :=
@@ -303,31 +308,40 @@ theorem not_reach_kid {h : Heap} {rank : Addr → Nat} (hr : h.RankedBy rank) {p
   omega
 
 /-- the members of the written cell abstract as before (acyclic: none of them reaches the cell) -/
-theorem kvs_abs_after_write {h : Heap} {rank : Addr → Nat} (hr : h.RankedBy rank) {par : Addr}
-    {kvs : AMap Addr} (hg : h.get? par = some (.cont kvs)) (cell' : Cell) {G K : Nat} (hle : G ≤ K)
+theorem kvs_abs_after_write {h : Heap} {par : Addr}
+    {kvs : AMap Addr} (hk : ∀ k ∈ (Cell.cont kvs).kids, ¬ Reach h k par) (cell' : Cell) {G K : Nat} (hle : G ≤ K)
     {m : List (String × Node)} (hm : optMapKvs (absH G h) kvs = some m) :
     optMapKvs (absH K (h.write par cell')) kvs = some m := by
   refine optMapKvs_imp ?_ hm
   intro p hp n hn
-  rw [absH_write_frame cell' (not_reach_kid hr hg (by simp only [Cell.kids, List.mem_map]; exact ⟨p, hp, rfl⟩)) K]
+  rw [absH_write_frame cell' (hk p.2 (by simp only [Cell.kids, List.mem_map]; exact ⟨p, hp, rfl⟩)) K]
   exact absH_fuel_le hle hn
 
-theorem items_abs_after_write {h : Heap} {rank : Addr → Nat} (hr : h.RankedBy rank) {par : Addr}
-    {xs : List Addr} (hg : h.get? par = some (.list xs)) (cell' : Cell) {G K : Nat} (hle : G ≤ K)
+theorem items_abs_after_write {h : Heap} {par : Addr}
+    {xs : List Addr} (hk : ∀ k ∈ (Cell.list xs).kids, ¬ Reach h k par) (cell' : Cell) {G K : Nat} (hle : G ≤ K)
     {ns : List Node} (hm : optMapM (absH G h) xs = some ns) :
     optMapM (absH K (h.write par cell')) xs = some ns := by
   refine optMapM_imp ?_ hm
   intro x hx n hn
-  rw [absH_write_frame cell' (not_reach_kid hr hg (by simpa [Cell.kids] using hx)) K]
+  rw [absH_write_frame cell' (hk x (by simpa [Cell.kids] using hx)) K]
   exact absH_fuel_le hle hn
 
 /-- what every refinement step assumes about the destination: the parent of `path` is reached from
     the root along that path only, and the value to attach does not contain it -/
 def Dest (h : Heap) (root : Addr) (pp : Path) (vs : List Addr) : Prop :=
-  ∀ par, evalH h root pp = some par → SolePath h root pp par ∧ ∀ v ∈ vs, ¬ Reach h v par
+  ∀ par, evalH h root pp = some par → SolePath h root pp par ∧
+    (∀ c, h.get? par = some c → ∀ k ∈ c.kids, ¬ Reach h k par) ∧ ∀ v ∈ vs, ¬ Reach h v par
 
-theorem doAddH_abs {h : Heap} {rank : Addr → Nat} (hr : h.RankedBy rank) (hm : h.MapsOk)
-    {F Fv : Nat} {root v : Addr} {d nv : Node} {path : Path} (hpl : Plain path) (hp : path ≠ [])
+/-- on an acyclic heap the middle clause of `Dest` is automatic -/
+theorem dest_of_ranked {h : Heap} {rank : Addr → Nat} (hr : h.RankedBy rank) {root : Addr} {pp : Path}
+    {vs : List Addr}
+    (hd : ∀ par, evalH h root pp = some par → SolePath h root pp par ∧ ∀ v ∈ vs, ¬ Reach h v par) :
+    Dest h root pp vs :=
+  fun par he => ⟨(hd par he).1, fun _ hg _ hk => not_reach_kid hr hg hk, (hd par he).2⟩
+
+theorem doAddH_abs {h : Heap} {root : Addr}
+    (hm : ∀ a kvs, Reach h root a → h.get? a = some (.cont kvs) → AMap.Sorted kvs)
+    {F Fv : Nat} {v : Addr} {d nv : Node} {path : Path} (hpl : Plain path) (hp : path ≠ [])
     (hd : absH F h root = some d) (hv : absH Fv h v = some nv)
     (hdest : Dest h root (parent path) [v]) :
     absH (F + Fv + 1) (doAddH (some v) path h root).1 root = some (Ytk.Patch.doAdd (some nv) path d).1 ∧
@@ -345,7 +359,7 @@ theorem doAddH_abs {h : Heap} {rank : Addr → Nat} (hr : h.RankedBy rank) (hm :
     exact ⟨hdF, rfl⟩
   | some par =>
     obtain ⟨dp, hdp, hev, hlt⟩ := k1 par he
-    obtain ⟨hsp, hnv⟩ := hdest par he
+    obtain ⟨hsp, hkids, hnv⟩ := hdest par he
     have hnv := hnv v (List.mem_singleton.mpr rfl)
     rw [hev]
     dsimp only
@@ -364,8 +378,8 @@ theorem doAddH_abs {h : Heap} {rank : Addr → Nat} (hr : h.RankedBy rank) (hm :
         rw [hK, absH, get?_write_self h _ (get?_lt hcell)]
         simp only
         rw [optMapKvs_insert (by rw [absH_write_frame _ hnv]; exact absH_fuel_le (by omega) hv)
-          (kvs_abs_after_write hr hcell _ (by omega) hmk)]
-      have hres := abs_write_at hm (parent path) (F + Fv + 1) root d hplp hdF hsp hnew
+          (kvs_abs_after_write (hkids _ hcell) _ (by omega) hmk)]
+      have hres := abs_write_at (parent path) (F + Fv + 1) root d hm hplp hdF hsp hnew
       rw [← add_of_noSuffix m _ hlast] at hres
       cases atoi (lastSegment path) <;> exact ⟨hres, rfl⟩
     | list xs =>
@@ -387,7 +401,7 @@ theorem doAddH_abs {h : Heap} {rank : Addr → Nat} (hr : h.RankedBy rank) (hm :
           rw [hins]
           dsimp only
           have hK : F + Fv + 1 - (parent path).length = (Fp' + Fv + 1) + 1 := by omega
-          have hbase := items_abs_after_write hr hcell
+          have hbase := items_abs_after_write (hkids _ hcell)
             (.list (xs.take idx.toNat ++ v :: xs.drop idx.toNat)) (K := Fp' + Fv + 1) (by omega) hmk
           have hnew : absH (F + Fv + 1 - (parent path).length)
               (h.write par (.list (xs.take idx.toNat ++ v :: xs.drop idx.toNat))) par =
@@ -397,6 +411,303 @@ theorem doAddH_abs {h : Heap} {rank : Addr → Nat} (hr : h.RankedBy rank) (hm :
             rw [optMapM_append (optMapM_take idx.toNat hbase)
               (optMapM_cons_some.mpr ⟨nv, _, by rw [absH_write_frame _ hnv]; exact absH_fuel_le (by omega) hv,
                 optMapM_drop idx.toNat hbase, rfl⟩)]
-          exact ⟨abs_write_at hm (parent path) (F + Fv + 1) root d hplp hdF hsp hnew, rfl⟩
+          exact ⟨abs_write_at (parent path) (F + Fv + 1) root d hm hplp hdF hsp hnew, rfl⟩
+
+theorem optMapKvs_erase {g : Addr → Option Node} (k : String) :
+    ∀ {kvs : List (String × Addr)} {m : List (String × Node)},
+      optMapKvs g kvs = some m → optMapKvs g (AMap.erase kvs k) = some (AMap.erase m k)
+  | [], m, h => by simp only [optMapKvs, Option.some.injEq] at h; subst h; rfl
+  | (k', a) :: kvs, m, h => by
+    obtain ⟨n, ns, hn, hxs, rfl⟩ := optMapKvs_cons_some.mp h
+    simp only [AMap.erase]
+    split
+    · exact hxs
+    · exact optMapKvs_cons_some.mpr ⟨n, _, hn, optMapKvs_erase k hxs, rfl⟩
+
+theorem optMapM_set_same {g : Addr → Option Node} {v : Addr} {nv : Node} (hv : g v = some nv) :
+    ∀ {xs : List Addr} {ns : List Node} (i : Nat),
+      optMapM g xs = some ns → optMapM g (xs.set i v) = some (ns.set i nv)
+  | [], ns, i, h => by simp only [optMapM, Option.some.injEq] at h; subst h; simp [optMapM]
+  | x :: xs, ns, i, h => by
+    obtain ⟨n, ns', hn, hxs, rfl⟩ := optMapM_cons_some.mp h
+    cases i with
+    | zero => simp only [List.set_cons_zero]; exact optMapM_cons_some.mpr ⟨nv, ns', hv, hxs, rfl⟩
+    | succ j =>
+      simp only [List.set_cons_succ]
+      exact optMapM_cons_some.mpr ⟨n, _, hn, optMapM_set_same hv j hxs, rfl⟩
+
+theorem doRemoveH_abs {h : Heap} {root : Addr}
+    (hm : ∀ a kvs, Reach h root a → h.get? a = some (.cont kvs) → AMap.Sorted kvs)
+    {F : Nat} {d : Node} {path : Path} (hpl : Plain path) (hp : path ≠ [])
+    (hd : absH F h root = some d) (hdest : Dest h root (parent path) []) :
+    absH F (doRemoveH path h root).1 root = some (Ytk.Patch.doRemove path d).1 ∧
+    (doRemoveH path h root).2 = (Ytk.Patch.doRemove path d).2 := by
+  have hplp := plain_parent hpl
+  obtain ⟨k1, k2⟩ := absH_eval (parent path) F root d hplp hd
+  obtain ⟨j1, j2⟩ := absH_eval path F root d hpl hd
+  unfold doRemoveH Ytk.Patch.doRemove
+  rw [Ytk.Ptr.eval_snd, Ytk.Ptr.eval_snd]
+  cases hn : evalH h root path with
+  | none => rw [j2 hn]; exact ⟨hd, rfl⟩
+  | some n =>
+    obtain ⟨dn, _, hevn, _⟩ := j1 n hn
+    rw [hevn]
+    dsimp only
+    cases he : evalH h root (parent path) with
+    | none => rw [k2 he]; exact ⟨hd, rfl⟩
+    | some par =>
+      obtain ⟨dp, hdp, hev, hlt⟩ := k1 par he
+      obtain ⟨hsp, hkids, _⟩ := hdest par he
+      rw [hev]
+      dsimp only
+      obtain ⟨Fp', cell, hFp, hcell, hmm⟩ := absH_inv hdp
+      rw [hcell]
+      cases cell with
+      | leaf s =>
+        simp only at hmm; subst hmm
+        cases atoi (lastSegment path) <;> exact ⟨hd, rfl⟩
+      | cont kvs =>
+        obtain ⟨m, hmk, rfl⟩ := hmm
+        have hnew : absH (F - (parent path).length)
+            (h.write par (.cont (AMap.erase kvs (lastSegment path)))) par =
+            some (.cont (AMap.erase m (lastSegment path))) := by
+          rw [hFp, absH, get?_write_self h _ (get?_lt hcell)]
+          simp only
+          rw [optMapKvs_erase _ (kvs_abs_after_write (hkids _ hcell) _ (Nat.le_refl _) hmk)]
+        have hres := abs_write_at (parent path) F root d hm hplp hd hsp hnew
+        cases atoi (lastSegment path) <;> exact ⟨hres, rfl⟩
+      | list xs =>
+        obtain ⟨ns, hmk, rfl⟩ := hmm
+        have hlen := optMapM_length hmk
+        cases ha : atoi (lastSegment path) with
+        | none => exact ⟨hd, rfl⟩
+        | some idx =>
+          dsimp only
+          unfold Ytk.Patch.removeListItem
+          rw [hlen]
+          by_cases hcond : idx < -1 ∨ (xs.length : Int) < idx
+          · rw [if_pos hcond, if_pos hcond]
+            exact ⟨hd, rfl⟩
+          · rw [if_neg hcond, if_neg hcond]
+            by_cases h1 : idx = -1
+            · rw [if_pos h1, if_pos h1]
+              dsimp only
+              have hnew : absH (F - (parent path).length) (h.write par (.list xs)) par = some (.list ns) := by
+                rw [hFp, absH, get?_write_self h _ (get?_lt hcell)]
+                simp only
+                rw [items_abs_after_write (hkids _ hcell) _ (Nat.le_refl _) hmk]
+              exact ⟨abs_write_at (parent path) F root d hm hplp hd hsp hnew, rfl⟩
+            · rw [if_neg h1, if_neg h1]
+              dsimp only
+              have hbase := items_abs_after_write (hkids _ hcell)
+                (.list (xs.take idx.toNat ++ xs.drop (idx.toNat + 1))) (Nat.le_refl Fp') hmk
+              have hnew : absH (F - (parent path).length)
+                  (h.write par (.list (xs.take idx.toNat ++ xs.drop (idx.toNat + 1)))) par =
+                  some (.list (ns.take idx.toNat ++ ns.drop (idx.toNat + 1))) := by
+                rw [hFp, absH, get?_write_self h _ (get?_lt hcell)]
+                simp only
+                rw [optMapM_append (optMapM_take idx.toNat hbase) (optMapM_drop (idx.toNat + 1) hbase)]
+              exact ⟨abs_write_at (parent path) F root d hm hplp hd hsp hnew, rfl⟩
+
+theorem doReplaceH_abs {h : Heap} {root : Addr}
+    (hm : ∀ a kvs, Reach h root a → h.get? a = some (.cont kvs) → AMap.Sorted kvs)
+    {F Fv : Nat} {v : Addr} {d nv : Node} {path : Path} (hpl : Plain path) (hp : path ≠ [])
+    (hd : absH F h root = some d) (hv : absH Fv h v = some nv)
+    (hdest : Dest h root (parent path) [v]) :
+    absH (F + Fv + 1) (doReplaceH (some v) path h root).1 root = some (Ytk.Patch.doReplace (some nv) path d).1 ∧
+    (doReplaceH (some v) path h root).2 = (Ytk.Patch.doReplace (some nv) path d).2 := by
+  have hplp := plain_parent hpl
+  have hlast := plain_last hp hpl
+  have hdF : absH (F + Fv + 1) h root = some d := absH_fuel_le (by omega) hd
+  obtain ⟨k1, k2⟩ := absH_eval (parent path) F root d hplp hd
+  obtain ⟨j1, j2⟩ := absH_eval path F root d hpl hd
+  unfold doReplaceH Ytk.Patch.doReplace
+  dsimp only
+  rw [Ytk.Ptr.eval_snd, Ytk.Ptr.eval_snd]
+  cases hn : evalH h root path with
+  | none => rw [j2 hn]; exact ⟨hdF, rfl⟩
+  | some n =>
+    obtain ⟨dn, _, hevn, _⟩ := j1 n hn
+    rw [hevn]
+    dsimp only
+    cases he : evalH h root (parent path) with
+    | none => rw [k2 he]; exact ⟨hdF, rfl⟩
+    | some par =>
+      obtain ⟨dp, hdp, hev, hlt⟩ := k1 par he
+      obtain ⟨hsp, hkids, hnv⟩ := hdest par he
+      have hnv := hnv v (List.mem_singleton.mpr rfl)
+      rw [hev]
+      dsimp only
+      obtain ⟨Fp', cell, hFp, hcell, hmm⟩ := absH_inv hdp
+      rw [hcell]
+      have hK : F + Fv + 1 - (parent path).length = (Fp' + Fv + 1) + 1 := by omega
+      cases cell with
+      | leaf s =>
+        simp only at hmm; subst hmm
+        cases atoi (lastSegment path) <;> exact ⟨hdF, rfl⟩
+      | cont kvs =>
+        obtain ⟨m, hmk, rfl⟩ := hmm
+        have hnew : absH (F + Fv + 1 - (parent path).length)
+            (h.write par (.cont (AMap.insert kvs (lastSegment path) v))) par =
+            some (.cont (AMap.insert m (lastSegment path) nv)) := by
+          rw [hK, absH, get?_write_self h _ (get?_lt hcell)]
+          simp only
+          rw [optMapKvs_insert (by rw [absH_write_frame _ hnv]; exact absH_fuel_le (by omega) hv)
+            (kvs_abs_after_write (hkids _ hcell) _ (by omega) hmk)]
+        have hres := abs_write_at (parent path) (F + Fv + 1) root d hm hplp hdF hsp hnew
+        rw [← add_of_noSuffix m _ hlast] at hres
+        cases atoi (lastSegment path) <;> exact ⟨hres, rfl⟩
+      | list xs =>
+        obtain ⟨ns, hmk, rfl⟩ := hmm
+        have hlen := optMapM_length hmk
+        cases ha : atoi (lastSegment path) with
+        | none => exact ⟨hdF, rfl⟩
+        | some idx =>
+          dsimp only
+          by_cases hcond : idx < 0
+          · rw [if_pos hcond, if_pos hcond]
+            exact ⟨hdF, rfl⟩
+          · rw [if_neg hcond, if_neg hcond]
+            -- the target exists, so the index is in range and `Set` does not pad
+            obtain ⟨par', hpar', hstep⟩ := evalH_parent_last hp hn
+            rw [he] at hpar'
+            cases Option.some.inj hpar'
+            have hin : idx.toNat < xs.length := by
+              unfold stepH at hstep
+              simp only [hcell, ha] at hstep
+              split at hstep
+              · rename_i hc2; omega
+              · cases hstep
+            have e1 : idx.toNat + 1 - xs.length = 0 := by omega
+            have e2 : idx.toNat + 1 - ns.length = 0 := by omega
+            have hls : Ytk.listSet ns idx.toNat nv = ns.set idx.toNat nv := by
+              simp only [Ytk.listSet, Ytk.padTo, e2, List.replicate_zero, List.append_nil]
+            rw [hls, e1]
+            simp only [List.replicate_zero, List.append_nil]
+            have hbase := items_abs_after_write (hkids _ hcell)
+              (.list (xs.set idx.toNat v)) (K := Fp' + Fv + 1) (by omega) hmk
+            have hnew : absH (F + Fv + 1 - (parent path).length)
+                (h.write par (.list (xs.set idx.toNat v))) par = some (.list (ns.set idx.toNat nv)) := by
+              rw [hK, absH, get?_write_self h _ (get?_lt hcell)]
+              simp only
+              rw [optMapM_set_same (by rw [absH_write_frame _ hnv]; exact absH_fuel_le (by omega) hv)
+                idx.toNat hbase]
+            exact ⟨abs_write_at (parent path) (F + Fv + 1) root d hm hplp hdF hsp hnew, trivial⟩
+
+/-! ### copy: Clone, then add on the extended heap -/
+
+/-- in an extension of a closed heap an old root reaches what it reached -/
+theorem reach_old {h h1 : Heap} (hl : h ≤ h1) (hcl : h.Closed) {x : Addr} (hx : x < h.size) {b : Addr}
+    (hb : Reach h1 x b) : Reach h x b ∧ b < h.size := by
+  refine Reach.closed_set (fun y => Reach h x y ∧ y < h.size) ?_ hb ⟨.refl _, hx⟩
+  intro a c ⟨ha, halt⟩ hg k hk
+  rw [get?_eq_of_le hl halt] at hg
+  exact ⟨ha.trans (Reach.child hg hk), hcl a c hg k hk⟩
+
+theorem stepH_of_le {h h1 : Heap} (hl : h ≤ h1) {a : Addr} (ha : a < h.size) (t : String) :
+    stepH h1 a t = stepH h a t := by
+  unfold stepH; rw [get?_eq_of_le hl ha]
+
+theorem solePath_of_le {h h1 : Heap} (hl : h ≤ h1) (hcl : h.Closed) {par : Addr} :
+    ∀ (pp : Path) (a : Addr), a < h.size → SolePath h a pp par → SolePath h1 a pp par
+  | [], _, _, hs => hs
+  | t :: ts, a, ha, hs => by
+    obtain ⟨hne, c, hstep, hrest, hoth⟩ := hs
+    obtain ⟨cell, hg, hk⟩ := stepH_kid hstep
+    have hc : c < h.size := hcl a cell hg c hk
+    refine ⟨hne, c, by rw [stepH_of_le hl ha]; exact hstep, solePath_of_le hl hcl ts c hc hrest, ?_⟩
+    rw [get?_eq_of_le hl ha]
+    rw [hg] at hoth ⊢
+    cases cell with
+    | leaf s => exact hoth
+    | cont kvs =>
+      intro p hp hne' hr
+      have hp2 : p.2 < h.size := hcl a _ hg p.2 (by simp only [Cell.kids, List.mem_map]; exact ⟨p, hp, rfl⟩)
+      exact hoth p hp hne' (reach_old hl hcl hp2 hr).1
+    | list xs =>
+      intro j x hx hne' hr
+      have hx2 : x < h.size := hcl a _ hg x (by simpa [Cell.kids] using List.mem_of_getElem? hx)
+      exact hoth j x hx hne' (reach_old hl hcl hx2 hr).1
+
+theorem copyH_abs {h : Heap} {root : Addr} (hm : h.MapsOk) (hcl : h.Closed) (hroot : root < h.size)
+    {d : Node} {f path : Path} (hplf : Plain f) (hpl : Plain path) (hp : path ≠ [])
+    (hd : abs h root = some d) (hdest : Dest h root (parent path) []) :
+    ∃ G, absH G (moveOrCopyH (some f) path h root false).1 root =
+        some (Ytk.Patch.moveOrCopy (some f) path d false).1 ∧
+      (moveOrCopyH (some f) path h root false).2 = (Ytk.Patch.moveOrCopy (some f) path d false).2 := by
+  unfold abs at hd
+  obtain ⟨j1, j2⟩ := absH_eval f h.size root d hplf hd
+  unfold moveOrCopyH moveOrCopyWith Ytk.Patch.moveOrCopy
+  dsimp only
+  rw [Ytk.Ptr.eval_snd]
+  cases hn : evalH h root f with
+  | none => rw [j2 hn]; exact ⟨h.size, hd, rfl⟩
+  | some n =>
+    obtain ⟨dn, hdn, hevn, _⟩ := j1 n hn
+    rw [hevn]
+    simp only [Bool.false_eq_true, if_false]
+    have hdn' : absH h.size h n = some dn := absH_fuel_le (Nat.sub_le _ _) hdn
+    obtain ⟨h1, c, hc, hcn⟩ := cloneF_abs h.size h n dn hdn'
+    rw [hc]
+    dsimp only
+    obtain ⟨hl, b1, b2, _⟩ := cloneF_spec h.size h n h1 c hc
+    have hreg := cloneF_region hc
+    have hm1 : ∀ a kvs, Reach h1 root a → h1.get? a = some (.cont kvs) → AMap.Sorted kvs := by
+      intro a kvs hr hg
+      have ha := (reach_old hl hcl hroot hr).2
+      rw [get?_eq_of_le hl ha] at hg
+      exact hm a kvs hg
+    have hdest1 : Dest h1 root (parent path) [c] := by
+      intro par he
+      rw [evalH_of_le hl hcl _ root hroot] at he
+      obtain ⟨hsp, hkids, _⟩ := hdest par he
+      have hpar : par < h.size := evalH_lt hcl hroot he
+      refine ⟨solePath_of_le hl hcl _ root hroot hsp, ?_, ?_⟩
+      · intro cell hg k hk hr
+        rw [get?_eq_of_le hl hpar] at hg
+        exact hkids cell hg k hk (reach_old hl hcl (hcl par cell hg k hk) hr).1
+      · intro v hv hr
+        cases List.mem_singleton.mp hv
+        exact absurd hpar (Nat.not_lt.mpr (hreg.reach hr b1 b2).1)
+    have := doAddH_abs hm1 hpl hp (absH_mono hl h.size root d hd) hcn hdest1
+    rw [clone_id]
+    exact ⟨_, this.1, this.2⟩
+
+/-! ### test: reads only -/
+
+theorem absH_det {h : Heap} {a : Addr} {f f' : Nat} {x y : Node} (hx : absH f h a = some x)
+    (hy : absH f' h a = some y) : x = y := by
+  have h1 := absH_fuel_le (Nat.le_max_left f f') hx
+  have h2 := absH_fuel_le (Nat.le_max_right f f') hy
+  rw [h1] at h2
+  exact Option.some.inj h2
+
+theorem doTestH_abs {h : Heap} {root v : Addr} {d nv : Node} {path : Path} (hpl : Plain path)
+    (hd : abs h root = some d) (hv : abs h v = some nv) :
+    (doTestH (some v) path h root).1 = h ∧
+    (doTestH (some v) path h root).2 = (Ytk.Patch.doTest (some nv) path d).2 ∧
+    (Ytk.Patch.doTest (some nv) path d).1 = d := by
+  refine ⟨doTestH_heap _ _ _ _, ?_, ?_⟩
+  · have hd' := hd
+    unfold abs at hd'
+    obtain ⟨j1, j2⟩ := absH_eval path h.size root d hpl hd'
+    unfold doTestH Ytk.Patch.doTest
+    dsimp only
+    rw [Ytk.Ptr.eval_snd]
+    cases hn : evalH h root path with
+    | none => rw [j2 hn]
+    | some n =>
+      obtain ⟨dn, hdn, hevn, _⟩ := j1 n hn
+      rw [hevn]
+      dsimp only
+      have hdn' : abs h n = some dn := absH_fuel_le (Nat.sub_le _ _) hdn
+      rw [hv, hdn']
+      dsimp only
+      split <;> rfl
+  · unfold Ytk.Patch.doTest
+    dsimp only
+    cases (Ytk.Ptr.eval path d).2 with
+    | none => rfl
+    | some n => dsimp only; split <;> rfl
 
 end Ytk.Heap
